@@ -208,7 +208,11 @@ func c10units(tier string) []mc.Unit {
 			e, k := e, k
 			us = append(us, mc.Unit{Name: fmt.Sprintf("%s/k=%d", e.name, k), Weight: int(pow(2*len(gapVals), k)) * 10, Run: func(r *mc.Recorder) {
 				var cnt, rings, nt, discarded int64
-				for om := 0; om < 1<<k; om++ {
+				for om := 0; om < 2<<k; om++ {
+					rep := om >> k // 0: the ring as laid out; 1: the ring's text twice (k in 1..2 only)
+					if rep == 1 && (k == 0 || k > 2) {
+						continue
+					}
 					orient := make([]bool, k)
 					for i := range orient {
 						orient[i] = om&(1<<i) != 0
@@ -220,7 +224,13 @@ func c10units(tier string) []mc.Unit {
 							gaps[i] = gapVals[gi[i]]
 						}
 						ring := c10ring(e, orient, gaps)
-						if c10count(ring, e) != k {
+						wantSites := k
+						if rep == 1 {
+							// the same cassette twice on one plasmid: identical fragments must both be reported
+							ring = ring + ring
+							wantSites = 2 * k
+						}
+						if c10count(ring, e) != wantSites {
 							discarded++ // accidental site in filler or across a junction: outside the quantifier
 						} else {
 							rings++
@@ -239,7 +249,7 @@ func c10units(tier string) []mc.Unit {
 								for ci, v := range []string{s, strings.ToLower(s), mixCase(s)} {
 									got, p := c10digest(e, clone.Part{Sequence: v, Circular: true})
 									cnt++
-									cas := fmt.Sprintf("%s circular orient=%v gaps=%v rot=%d case=%d seq=%s", e.name, orient, gaps, rot, ci, s)
+									cas := fmt.Sprintf("%s circular orient=%v gaps=%v twice=%d rot=%d case=%d seq=%s", e.name, orient, gaps, rep, rot, ci, s)
 									if p != "" {
 										r.Failf("no-panic", cas, tags, strings.Join(want, " "), "panic: "+p)
 									} else if strings.Join(got, ",") != strings.Join(want, ",") {
